@@ -105,6 +105,11 @@ def _f(x):
     return np.array(getattr(x, 'value', x), dtype=float, copy=True)
 
 
+def hash_order(text, seed):
+    import hashlib
+    return hashlib.blake2b(('%s/%s' % (seed, text)).encode(), digest_size=8).hexdigest()
+
+
 class _Spy(object):
     """Wraps FitInfo.filter_table while a consumer runs, to see the table the listing / plot is made from."""
 
@@ -142,7 +147,12 @@ def _execute(sc, sim, out):
         return
     W, d, outp, recs = fw
     names = W.names
-    add = {'ADD1': {nm: 3.3 * i + 0.7 for i, nm in enumerate(names)}, 'ADD2': {nm: -1.0 / (i + 1.5) for i, nm in enumerate(names)}}
+    # several additional parameters; neither the outer keys nor the inner model names are inserted in alphabetical order
+    add = {}
+    for key_, fn_ in sorted([('ZETA', lambda i: 3.3 * i + 0.7), ('ALPHA', lambda i: -1.0 / (i + 1.5)), ('MID', lambda i: 100.0 + 7.0 * i)],
+                            key=lambda kv: hash_order(kv[0], sc['theta_seed'])):
+        order_ = sorted(range(len(names)), key=lambda i: hash_order(names[i], sc['theta_seed']))
+        add[key_] = {names[i]: fn_(i) for i in order_}
 
     def lookup(col, nm):
         if col in W.pars:
